@@ -52,7 +52,8 @@ SLOTS = {
 }
 POSITIONAL = {'n1': ['uid', 'x']}  # positional-only names, in order
 
-_PATH_RE = re.compile(r'at (<root>.*?) with positional arguments: ')
+# a path printed after the original message: <root> followed by .name / [key]
+_PATH_RE = re.compile(r"""<root>((?:\.\w+|\[(?:\d+|'[^']*'|"[^"]*")\])*)""")
 
 
 # --------------------------------------------------------------------------
@@ -522,21 +523,27 @@ def run(case):
                      f'the original {s_org[:120]!r}', **tag))
       continue
     # 3. path
-    mt = _PATH_RE.search(s_esc[len(s_org):])
-    if mt is None:
+    # any <root>... path named in the part of the message that was added;
+    # the wording around it is not pinned down
+    cands = _PATH_RE.findall(s_esc[len(s_org):])
+    if not cands:
       viols.append(V('C05', 'no-path',
                      f'uid {u}: {shape} (fmt={tag["fmt"]}) escaped without a '
                      'Fiddle context / path', **tag))
     else:
       bump(probes, 'path_checked')
-      pth = mt.group(1)[len('<root>'):]
-      try:
-        target = eval('root' + pth, {'root': root})  # pylint: disable=eval-used
-      except Exception as e3:  # pylint: disable=broad-except
-        target = e3
-      ok = (isinstance(target, fdl.Buildable) and cfg_uid(target) == u
-            and isinstance(target, fdl.Config))
+      ok, seen_targets = False, []
+      for pth in cands:
+        try:
+          target = eval('root' + pth, {'root': root})  # pylint: disable=eval-used
+        except Exception as e3:  # pylint: disable=broad-except
+          target = e3
+        seen_targets.append((pth, target))
+        if (isinstance(target, fdl.Config) and cfg_uid(target) == u):
+          ok = True
+          break
       if not ok:
+        pth, target = seen_targets[0]
         viols.append(V('C05', 'wrong-path',
                        f'uid {u}: path <root>{pth} leads to '
                        f'{C.norm_text(repr(target))[:160]}', **tag))
